@@ -104,6 +104,7 @@ let exts : figures list ref = ref []
 let n_ok = ref 0 and n_traced = ref 0 and n_rejected = ref 0 and n_keyspend = ref 0 and n_bad = ref 0
 let hist : (string, int) Hashtbl.t = Hashtbl.create 64
 let bump k = Hashtbl.replace hist k (1 + (try Hashtbl.find hist k with Not_found -> 0))
+let ops_lines = (try Sys.getenv "VERIF_OPS_LINES" <> "" with Not_found -> false)
 let slack_class d = if d = 0 then "0" else if d <= 2 then "1-2" else if d <= 9 then "3-9" else "10+"
 
 let rec take k l acc = if k = 0 then (List.rev acc, l) else match l with x :: r -> take (k - 1) r (x :: acc) | [] -> failwith "take"
@@ -152,6 +153,10 @@ let handle_run (c : case) (toks : string list) =
              | Some (_, wcount, _, estack, eops) ->
                if c.kind <> "tr" then begin
                  bump ("ops-slack/" ^ slack_class (f.static_ops + eops - ops));
+                 (* per-run figures for the directed op-count stage (tools/props/c09.py), only on request *)
+                 if ops_lines then
+                   Printf.printf "OPS case=%s mode=%s keymask=%s premask=%s measured=%d static_ops=%d max_exec_op_count=%d\n"
+                     c.id mode km pm ops f.static_ops eops;
                  if ops > f.static_ops + eops then begin
                    incr n_bad;
                    Printf.printf "BAD C09 what=opcount case=%s kind=%s mode=%s keymask=%s premask=%s leaf=%d measured=%d static_ops=%d max_exec_op_count=%d ms=%s desc=%s\n"
